@@ -154,6 +154,15 @@ func c01Scenarios(tier string) []*Scenario {
 			}
 			out = append(out, sc)
 		}
+		// a stream its caller gave up on (own deadline, possibly in the middle of a send), then the next stream
+		for _, kind := range []string{"bd", "cs"} {
+			sc := &Scenario{Prop: "C01", Transport: tr, Bound: -1, Opts: "seq0,timers", RPCs: []RPC{
+				{Kind: kind, Client: []string{"S0", "S1", "C", "R*"}, Handler: []string{"r*", "s0", "ret:ok"}, Timeout: "1s"},
+				{Kind: kind, Client: []string{"S0", "S1", "C", "R*"}, Handler: []string{"r*", "s0", "ret:ok"}},
+			}}
+			sc.Name = "after-an-abandoned-stream|" + rpcName(sc.RPCs[0]) + " >> " + rpcName(sc.RPCs[1])
+			out = append(out, sc)
+		}
 		// two RPCs at once with the decoder as a scheduling point: whatever the library recycles between calls
 		// (buffers, pooled objects) must not be handed on while a receiver is still decoding from it
 		{
